@@ -101,6 +101,7 @@ type ScriptedPeer struct {
 	HangupOn func(kind string) bool
 	hung     bool
 	armed    bool
+	held     []*gateway.Stream // half-open streams of a flood
 
 	mu      sync.Mutex
 	t       *gateway.Transport
@@ -826,4 +827,47 @@ func (z *ScriptedPeer) RelayTxSet(index types.ChainIndex, txns []types.V2Transac
 		z.note("RelayV2TransactionSet", kind, fmt.Sprintf("%d txns", len(txns)))
 	}
 	return err
+}
+
+// Flood exhausts the victim's per-subnet in-flight RPC budget: halfOpen streams carry an RPC id and
+// never the request (the victim's handlers stay in flight, waiting), then `extra` complete RPCs are
+// sent while the budget is full (the victim drops them).  The streams are kept until the peer closes.
+func (z *ScriptedPeer) Flood(halfOpen, extra int) error {
+	z.mu.Lock()
+	t := z.t
+	z.mu.Unlock()
+	if t == nil {
+		return fmt.Errorf("not connected")
+	}
+	for i := 0; i < halfOpen; i++ {
+		s, err := t.DialStream()
+		if err != nil {
+			return err
+		}
+		s.SetDeadline(time.Now().Add(30 * time.Second))
+		if err := s.WriteID(&gateway.RPCSendHeaders{}); err != nil {
+			return err
+		}
+		z.mu.Lock()
+		z.held = append(z.held, s)
+		z.mu.Unlock()
+	}
+	z.note("flood", "flood-halfopen", fmt.Sprintf("%d RPC ids without a request", halfOpen))
+	time.Sleep(150 * time.Millisecond) // let the victim start the handlers
+	for i := 0; i < extra; i++ {
+		s, err := t.DialStream()
+		if err != nil {
+			return err
+		}
+		s.SetDeadline(time.Now().Add(2 * time.Second))
+		r := &gateway.RPCSendHeaders{Index: types.ChainIndex{ID: z.W.Genesis.ID()}, Max: 10}
+		if err := s.WriteID(r); err == nil {
+			if err := s.WriteRequest(r); err == nil {
+				s.ReadResponse(r) // dropped by the victim while the subnet is over budget
+			}
+		}
+		s.Close()
+	}
+	z.note("flood", "flood-overbudget", fmt.Sprintf("%d RPCs while the budget is full", extra))
+	return nil
 }
